@@ -220,7 +220,7 @@ pub fn run(outdir: &Path, tier: &str, seed: u64, shards: usize, replay: Option<S
         });
     }
     let samples: Vec<_> = cases.iter().step_by((cases.len() / 6).max(1)).map(|c| c.desc.clone()).collect();
-    let cs = CaseSet { run_module: "RunC18".into(), cases, checkers: vec!["corr".into(), "prop".into(), "wellformed".into()], extra_imports: vec!["Attrs".into()] };
+    let cs = CaseSet { run_module: "RunC18".into(), cases, checkers: vec!["corr".into(), "prop".into(), "wellformed".into()], extra_imports: vec!["Attrs".into()], preludes: vec![] };
     cs.write(
         outdir,
         shards,
